@@ -20,6 +20,14 @@ def run_cases(chk: Check, recs: List[dict], pid: str = "C02") -> None:
     chk.rule(f"{pid}.R3", "no rule other than flip / balanced move rewrites the '=' node itself", minimum=1)
     seen_r3 = 0
     for r in recs:
+        if r["outcome"] == "history" and r["rule"] in ("BalancedMoveRule", "CommutativeSwapRule"):
+            site = r.get("note", "").split(" at ")[-1].split(":L")[0]
+            chk.fail(f"{pid}.R1", f"{pid}.R1:{r['rule']}:history-dependent:{site}", case_label(r),
+                     f"the classification of the node (top-level addend / coefficient) is read from state that earlier calls "
+                     f"left on the rule object ({r.get('note')}): after a rewrite that keeps node ids - every rewrite does - a "
+                     f"stale 'addend' answer moves a term out of a quotient or product and changes the solution set",
+                     witness={"path": r["cond"][:400]}, where=where_rule(r, "get_type"))
+            continue
         if r["outcome"] != "applied" or not r.get("result_is_node") or "judge_error" in r:
             continue
         v = r["value"]
